@@ -380,8 +380,10 @@ pub fn order_by(m: &Model, ids: &mut Vec<i64>, order: &[DbKeyOrder]) -> Option<(
                         }
                     }
                     None => {
+                        // order across types is unspecified: the caller discards the result;
+                        // keep a total order so the sort itself stays well defined
                         unspecified = true;
-                        Ordering::Equal
+                        type_tag(x).cmp(&type_tag(y))
                     }
                 },
             };
@@ -595,4 +597,35 @@ pub fn path_witness(
         }
     }
     false
+}
+
+
+/// like `min_path_cost`, also returning the fewest elements (origin excluded) among minimum-cost paths
+pub fn min_path_cost_len(m: &Model, from: i64, to: i64, conds: &[QueryCondition], rd: Reading) -> Option<(u64, u64)> {
+    if from == to || !m.is_node(from) || !m.is_node(to) {
+        return None;
+    }
+    let mut dist: BTreeMap<i64, (u64, u64)> = BTreeMap::new();
+    let mut heap: BTreeSet<((u64, u64), i64)> = BTreeSet::new();
+    dist.insert(from, (0, 0));
+    heap.insert(((0, 0), from));
+    while let Some((d, n)) = heap.pop_first() {
+        if n == to {
+            return Some(d);
+        }
+        if dist.get(&n).copied().unwrap_or((u64::MAX, u64::MAX)) < d {
+            continue;
+        }
+        for e in m.out.get(&n).cloned().unwrap_or_default() {
+            let Some((ec, _)) = element_cost(m, e, conds, rd) else { continue };
+            let t = m.elems[&e].to;
+            let Some((nc, _)) = element_cost(m, t, conds, rd) else { continue };
+            let nd = (d.0 + ec + nc, d.1 + 2);
+            if nd < dist.get(&t).copied().unwrap_or((u64::MAX, u64::MAX)) {
+                dist.insert(t, nd);
+                heap.insert((nd, t));
+            }
+        }
+    }
+    None
 }
